@@ -5,3 +5,6 @@ group("eng", family="vec", shrinks={}, overlays={"src/storage/engine.rs": "ovl_e
 group("proto", family="std", shrinks={}, overlays={"src/protocol/parser.rs": "ovl_parser.rs"})
 # engine with 2 shards per database (functions that loop over all shards: sweeper, scan, keys, flush)
 group("eng2s", family="vec", shrinks={"SHARDS_PER_DATABASE": 2}, overlays={"src/storage/engine.rs": "ovl_engine.rs"}, fs_array=4096)
+# engine with the two `x.chars().collect()` lines of the glob matcher replaced by an ASCII-exact byte->char copy
+group("engglob", family="vec", shrinks={}, overlays={"src/storage/engine.rs": "ovl_engine.rs"},
+      subst=[(r"(\w+)\.chars\(\)\.collect\(\)", r"crate::verif_common::ascii_chars(\1)", "src/storage/engine.rs")])
